@@ -207,6 +207,27 @@ Theorem C10_replace_re_all_total : forall m s r t,
 Proof. exact (str_replace_re_all_total merge_ok_holds inclusion_sound_holds). Qed.
 Print Assumptions C10_replace_re_all_total.
 
+(* D11 repaired: no character derivative panics any more, so deriv_fails never holds and the search
+   and replace functions return on every good string, from every manager satisfying the invariant *)
+Theorem C10_deriv_never_fails : forall m, ~ deriv_fails m.
+Proof. exact deriv_never_fails. Qed.
+Print Assumptions C10_deriv_never_fails.
+
+Theorem C10_re_search_returns : forall m r s k allow_empty,
+  dwf m -> owned m r -> goodw s -> exists m' res, naive_re_search m r s k allow_empty = Some (m', res).
+Proof. exact naive_re_search_returns. Qed.
+Print Assumptions C10_re_search_returns.
+
+Theorem C10_replace_re_returns : forall m s r t,
+  dwf m -> owned m r -> goodw s -> exists m' x, str_replace_re m s r t = Some (m', x).
+Proof. exact str_replace_re_returns. Qed.
+Print Assumptions C10_replace_re_returns.
+
+Theorem C10_replace_re_all_returns : forall m s r t,
+  dwf m -> owned m r -> goodw s -> exists m' x, str_replace_re_all m s r t = Some (m', x).
+Proof. exact str_replace_re_all_returns. Qed.
+Print Assumptions C10_replace_re_all_returns.
+
 (* ---------------------------------------------------------------- certified evaluation *)
 
 (* eval_* p s .. : run the construction p on the fresh manager, then the search / replace function;
@@ -229,6 +250,18 @@ Theorem C10_eval_replace_re_all_sound : forall p s t x,
   prog_ok p = true -> goodwb s = true -> eval_replace_re_all p s t = Some x -> ReplaceReAll (denote p) s t x.
 Proof. exact (eval_replace_re_all_sound merge_ok_holds inclusion_sound_holds). Qed.
 Print Assumptions C10_eval_replace_re_all_sound.
+
+(* the evaluators are total on accepted programs and good strings, and their value is the unique
+   SMT-LIB value *)
+Theorem C10_eval_replace_re_total : forall p s t, prog_ok p = true -> goodwb s = true ->
+  exists x, eval_replace_re p s t = Some x /\ forall y, ReplaceRe (denote p) s t y <-> y = x.
+Proof. exact eval_replace_re_total. Qed.
+Print Assumptions C10_eval_replace_re_total.
+
+Theorem C10_eval_replace_re_all_total : forall p s t, prog_ok p = true -> goodwb s = true ->
+  exists x, eval_replace_re_all p s t = Some x /\ forall y, ReplaceReAll (denote p) s t y <-> y = x.
+Proof. exact eval_replace_re_all_total. Qed.
+Print Assumptions C10_eval_replace_re_all_total.
 
 (* ---------------------------------------------------------------- examples: hypotheses are satisfiable *)
 
